@@ -402,7 +402,7 @@ def generate(rng, tier, index):
     n_path = rng.between(1, 3)
     names = sorted(rng.sample(NAMES, rng.between(1, 8)))
     numstr = rng.chance(0.7)
-    cfg = {"bufsize": rng.choice(BUFSIZES), "chunk": rng.choice([1, 8, 64, 8192, 8192]),
+    cfg = {"kwcalls": rng.chance(0.25), "bufsize": rng.choice(BUFSIZES), "chunk": rng.choice([1, 8, 64, 8192, 8192]),
            "fault_kinds": kinds, "fault_free": fault_free, "names": names}
     # op mix for this run (swarm)
     kinds_ops = ["addpar", "set", "set_parameters", "set_varylist", "set_variable_values",
@@ -552,6 +552,14 @@ def execute(trace):
     def count(k, n=1):
         counters[k] = counters.get(k, 0) + n
 
+    kwcalls = bool(cfg.get("kwcalls"))
+
+    def K(fn, names, *args):
+        """call with positional or (per run) keyword arguments; the names are the public parameter names"""
+        if kwcalls and len(names) == len(args):
+            return fn(**dict(zip(names, args)))
+        return fn(*args)
+
     objs = {}      # id -> real object
     models = {}    # id -> _Model
     shared = {}    # caller-side dict objects that are reused across calls
@@ -625,7 +633,7 @@ def execute(trace):
         disk.arm(plan)
         try:
             try:
-                target.loadparameters(path)
+                K(target.loadparameters, ["filename"], path)
                 raised = None
             except OSError as e:
                 raised = "OSError:%s" % errno.errorcode.get(e.errno, e.errno)
@@ -680,13 +688,16 @@ def execute(trace):
                     if kind == "addpar":
                         _, _, name, v, vary, can_vary, step = op
                         v = dec(v)
-                        o.addpar(P.par(name, v, vary=vary, can_vary=can_vary, stepsize=dec(step)))
+                        if kwcalls:
+                            o.addpar(par=P.par(name=name, value=v, vary=vary, can_vary=can_vary, stepsize=dec(step)))
+                        else:
+                            o.addpar(P.par(name, v, vary=vary, can_vary=can_vary, stepsize=dec(step)))
                         m.p[name] = [v, False]
                         if vary and name not in m.vary:
                             m.vary.append(name)
                     elif kind == "set":
                         v = dec(op[3])
-                        o.set(op[2], v)
+                        K(o.set, ["name", "value"], op[2], v)
                         m.p[op[2]] = [v, False]
                     elif kind == "set_aligned":
                         name, boundary, delta = op[2], int(op[3]), int(op[4])
@@ -722,7 +733,7 @@ def execute(trace):
                             count("probe.caller_dict_reused")
                         else:
                             dobj = dict(d)
-                        o.set_parameters(dobj)
+                        K(o.set_parameters, ["d"], dobj)
                         for k, v in d.items():
                             m.p[k] = [v, False]
                         for k in m.p:
@@ -742,9 +753,9 @@ def execute(trace):
                             lst = caller_lists.setdefault(oid, [])
                             lst[:] = vl
                             count("probe.caller_list_reused")
-                            o.set_varylist(lst)
+                            K(o.set_varylist, ["vl"], lst)
                         else:
-                            o.set_varylist(list(vl))
+                            K(o.set_varylist, ["vl"], list(vl))
                         m.vary = list(vl)
                     elif kind == "set_variable_values":
                         if not all(n in m.p for n in m.vary):
@@ -753,7 +764,7 @@ def execute(trace):
                         if len(vals) != len(m.vary):
                             count("skip.set_variable_values_length")
                             continue
-                        o.set_variable_values(list(vals))
+                        K(o.set_variable_values, ["values"], list(vals))
                         for n, v in zip(m.vary, vals):
                             m.p[n] = [v, False]
                     elif kind in ("update_other", "update_yourself"):
@@ -789,7 +800,7 @@ def execute(trace):
                         disk.arm(plan)
                         try:
                             try:
-                                o.saveparameters(path)
+                                K(o.saveparameters, ["filename"], path)
                                 raised = None
                             except OSError as e:
                                 raised = "OSError:%s" % errno.errorcode.get(e.errno, e.errno)
